@@ -1,6 +1,6 @@
 (* Entry points used by the correspondence check (harness/c10.py). *)
 From Coq Require Import NArith ZArith QArith List Bool.
-From PV Require Import Gen.CloneConst Clone.GroupSpec Clone.GroupCommon Clone.GroupConnected
+From PV Require Import Gen.GroupConst Clone.GroupSpec Clone.GroupCommon Clone.GroupConnected
   Clone.GroupComplete Clone.GroupKCore Clone.GroupStar Clone.GroupLattice.
 Import ListNotations.
 
